@@ -86,7 +86,7 @@ func (e *Engine) intrinsic(fr *Frame, st *State, ins ssa.Instruction, key string
 		return e.newError(st), true
 	case "fmt.Sprintf", "fmt.Sprint":
 		// deterministic function of the scalar arguments when they are visible (variadic slice of boxed interfaces)
-		r := e.sprintf(fr, st, ins, key, args)
+		r := e.sprintf(fr, st, ins, key, fn, args)
 		return scalar(r), true
 	case "strings.Contains":
 		return scalar(App("str_contains", SBool, args[0].T, args[1].T)), true
@@ -189,7 +189,7 @@ func (e *Engine) intrinsic(fr *Frame, st *State, ins ssa.Instruction, key string
 }
 
 // sprintf models fmt.Sprintf/Sprint as an uninterpreted function of the format and the boxed arguments.
-func (e *Engine) sprintf(fr *Frame, st *State, ins ssa.Instruction, key string, args []Val) *Term {
+func (e *Engine) sprintf(fr *Frame, st *State, ins ssa.Instruction, key string, fn *ssa.Function, args []Val) *Term {
 	var parts []*Term
 	vi := 0
 	if key == "fmt.Sprintf" {
@@ -199,7 +199,12 @@ func (e *Engine) sprintf(fr *Frame, st *State, ins ssa.Instruction, key string, 
 	if vi < len(args) {
 		sl := args[vi]
 		if n, ok := sl.Fs[2].T.intVal(); ok && n.IsInt64() && n.Int64() <= 8 {
-			ift := types.NewInterfaceType(nil, nil)
+			var ift types.Type = types.NewInterfaceType(nil, nil)
+			if ps := fn.Signature.Params(); ps.Len() > 0 {
+				if st, ok := ps.At(ps.Len() - 1).Type().Underlying().(*types.Slice); ok {
+					ift = st.Elem() // the element type the call site stored through (interface{} vs any)
+				}
+			}
 			for i := int64(0); i < n.Int64(); i++ {
 				pl := &Place{Kind: PElem, Ref: sl.Fs[0].T, Idx: Add(sl.Fs[1].T, IntLit(i)), Typ: ift}
 				v := st.load(pl)
